@@ -108,7 +108,8 @@ def havoc(ex, st: State, names):
             continue
         if isinstance(cur, VPyList):
             raise OutOfReach(f"loop modifies concrete list {n}")
-        nv = S.fresh(S.sort_of(cur), n)
+        ls = ex.local_sort(n)
+        nv = S.fresh(ls if ls is not None else S.sort_of(cur), n)
         if isinstance(cur, VSeq):
             nv.kind = cur.kind
         st.env[n] = nv
@@ -136,14 +137,15 @@ def eval_clause(ex, info, clause_node: ast.FunctionDef, st: State, extra: dict):
     sub = Exec(ex.ctx, info.file, contract=None, spec_mode=True)
     sub.fn_stack = [(clause_node, None)]
     sub.float_mode = ex.float_mode
-    s2 = State(env, [], st.facts)
+    n0 = len(st.pc)
+    s2 = State(env, list(st.pc), st.facts)
     outs = sub.exec_block(clause_node.body, s2)
     res = None
     for kind, s3, payload in outs:
         if kind != "return":
             raise OutOfReach(f"clause {clause_node.name} did not return on a path")
         t = sub.truth(payload)
-        cond = z3.And(*s3.pc) if s3.pc else z3.BoolVal(True)
+        cond = z3.And(*s3.pc[n0:]) if s3.pc[n0:] else z3.BoolVal(True)
         res = z3.And(cond, t) if res is None else z3.Or(res, z3.And(cond, t))
     return res if res is not None else z3.BoolVal(True)
 
@@ -162,7 +164,7 @@ def eval_clause_value(ex, info, clause_node, st, extra):
             raise OutOfReach(f"clause {clause_node.name}: no value for parameter {nm}")
     sub = Exec(ex.ctx, info.file, contract=None, spec_mode=True)
     sub.fn_stack = [(clause_node, None)]
-    s2 = State(env, [], st.facts)
+    s2 = State(env, list(st.pc), st.facts)
     outs = sub.exec_block(clause_node.body, s2)
     if len(outs) != 1 or outs[0][0] != "return":
         raise OutOfReach(f"clause {clause_node.name} must be a single return")
